@@ -1444,7 +1444,7 @@ def run(tier):
     if tier == 'quick':
         ndocs, per_doc, nprog, rounds = 6000, 4, 4000, 1
     else:
-        ndocs, per_doc, nprog, rounds = 120000, 6, 60000, 12
+        ndocs, per_doc, nprog, rounds = 25000, 5, 25000, 5        # ~150 000 serialisations: 8-12 min on 16 idle cores
     for rd in range(rounds):
         cases = []
         if rd == 0:
